@@ -19,6 +19,19 @@ theorem iter_stop {step : σ → Step σ α} {s s' : σ} (n : Nat) (h : step s =
 theorem iter_cont {step : σ → Step σ α} {s s' : σ} (n : Nat) (h : step s = .cont s') :
     iter step (n + 1) s = iter step n s' := by simp [iter, h]
 
+theorem ofStep_next (step : Nat → σ → Step σ α) (fu : Nat) (s : σ) :
+    (ofStep step).next fu s = iter (step fu) fu s := rfl
+
+theorem ofStep_stop {step : Nat → σ → Step σ α} {fu : Nat} {s s' : σ} (hfu : 0 < fu)
+    (h : step fu s = .stop s') : (ofStep step).next fu s = .done s' := by
+  obtain ⟨n, rfl⟩ : ∃ n, fu = n + 1 := ⟨fu - 1, by omega⟩
+  exact iter_stop n h
+
+theorem ofStep_yield {step : Nat → σ → Step σ α} {fu : Nat} {s s' : σ} {a : α} (hfu : 0 < fu)
+    (h : step fu s = .yield a s') : (ofStep step).next fu s = .item a s' := by
+  obtain ⟨n, rfl⟩ : ∃ n, fu = n + 1 := ⟨fu - 1, by omega⟩
+  exact iter_yield n h
+
 /-! ## what a generator will do
 
 `Feeds g cnt fu s vals e`: from state `s` (with `fu` fuel per call) the generator yields `vals` —
@@ -258,7 +271,8 @@ theorem count_produces (mark : Nat → α → α) (up : Gen σ α) (cnt : σ →
       obtain ⟨vals', h', ho⟩ := hR
       cases h' with
       | @done _ s' h1 h2 =>
-        exact ⟨(s', .finished), iter_stop _ (by simp [countStep, h1]), iter_stop _ (by simp [countStep]), rfl⟩
+        exact ⟨(s', .finished), ofStep_stop (by omega) (by simp [countStep, h1]),
+          ofStep_stop (by omega) (by simp [countStep]), rfl⟩
       | @item _ s' v rest _ hi hrest =>
         exfalso
         cases rest <;> simp [countSpec, countSpecGo] at ho
@@ -270,7 +284,8 @@ theorem count_produces (mark : Nat → α → α) (up : Gen σ α) (cnt : σ →
       | cons q r => obtain ⟨v, c2⟩ := q; simp [countSpecGo] at ho
     | finished =>
       obtain ⟨_, hc⟩ := hR
-      exact ⟨(t, .finished), iter_stop _ (by simp [countStep]), iter_stop _ (by simp [countStep]), hc⟩
+      exact ⟨(t, .finished), ofStep_stop (by omega) (by simp [countStep]),
+        ofStep_stop (by omega) (by simp [countStep]), hc⟩
   · rintro ⟨t, l⟩ b c rest cf' hR
     cases l with
     | start =>
